@@ -132,6 +132,17 @@ def gen(rng, idx, tier):
     glyphs, desc = S.repertoire(rng, scripts=scripts, n=rng.choice([4, 6, 8, 10]),
                                 n_unencoded=rng.choice([1, 2, 3, 4, 5]),
                                 n_marks=2 if stratum == "empty_categories_user_gdef" else None)
+    if rng.random() < 0.2:
+        # letters that also carry a script-neutral code point (Delta = U+0394 and U+2206 INCREMENT,
+        # mu = U+03BC and U+00B5): the script code point first or last; still that script's glyph
+        extra_cps = [0x2206, 0x00B5, 0x2219, 0x25CA, 0x2215, 0x00B7]
+        rng.shuffle(extra_cps)
+        for g in glyphs:
+            d = desc[g["name"]]
+            if d["kind"] == "letter" and len(g["unicodes"]) == 1 and extra_cps and rng.random() < 0.4:
+                cp = extra_cps.pop()
+                g["unicodes"] = g["unicodes"] + [cp] if rng.random() < 0.7 else [cp] + g["unicodes"]
+                desc[g["name"]] = S.describe(g["name"], g["unicodes"], d["kind"], d.get("sources"))
     names = [g["name"] for g in glyphs]
     rules = S.rules_for(desc)
     in_rules = {n for r in rules for n in r["in"] + [r["out"]]}
